@@ -397,3 +397,16 @@ pub proof fn lemma_list_reopens(w: World, a: Address, x: Address)
     lemma_block(w, a);
     lemma_unblock(block_post(w, a), a);
 }
+
+/// OBSERVATION (documented behaviour, not counted as a defect): the spender of an allowance is vetted
+/// by none of the entry points — a disallowed / blocked spender holding an allowance can still move or
+/// burn the tokens of an allowed / unblocked owner; likewise `approve` does not vet the spender.
+pub proof fn lemma_spender_is_not_vetted(w: World, spender: Address, from: Address, to: Address, amount: i128, live: u32)
+    requires is_blocked(w, spender), !is_blocked(w, from), !is_blocked(w, to),
+    ensures
+        //@@ C16:observation.spender_not_vetted
+        bl_gate(w, FOp::TransferFrom { spender: spender, from: from, to: to, amount: amount }),
+        bl_gate(w, FOp::BurnFrom { spender: spender, from: from, amount: amount }),
+        bl_gate(w, FOp::Approve { owner: from, spender: spender, amount: amount, live: live }),
+{
+}
